@@ -89,6 +89,9 @@ inductive IExpr where
   /-- `EConstr`: `info` = what `lookup_constructor_with_namespace` and the enum / struct table say about the written
   path — `some (some (constructor type, declared arity))`, `some none` = not found, `none` = ambiguous (name resolution) -/
   | constr (i : Nat) (info : Option (Option (Ty × Nat))) (args : List IExpr)
+  /-- `EStructLiteral` with every field of the struct written exactly once: `idxs` = the position of each written
+  field in the struct definition (the fields are CHECKED in the written order, the tree holds them in the declared order) -/
+  | slit (i : Nat) (info : Option (Ty × Nat)) (idxs : List Nat) (args : List IExpr)
 inductive IArm where
   | mk (p : IPat) (body : IExpr)
 end
@@ -286,10 +289,10 @@ def checkPat : IPat → Ty → Scopes → St → TPat × Scopes × St
         | none => IDiag.ctorAmbiguous
         | some none => IDiag.ctorNotFound
         | some (some _) => IDiag.ctorArity
-      let v := (s.mark.diag d).fresh
+      let v := (s.diag d).fresh
       (.wild v.1, Γ, v.2.push (.eq v.1 ty))
     | some cty =>
-      let it := s.mark.inst cty
+      let it := s.inst cty
       let r := checkPatZip args (ctorParams it.1) Γ it.2
       (.constr r.1 (ctorRet it.1), r.2.1, r.2.2.push (.eq (ctorRet it.1) ty))
   | .tuple ps, ty, Γ, s =>
@@ -460,6 +463,10 @@ def nominalOf (G : GEnv) (n : String) : Option Ty :=
   if G.enums.contains n then some (.enum n)
   else if G.env.structs.any (fun sd => sd.name == n) then some (.struct n)
   else none
+
+/-- `ordered_args`: the checked fields put at their declared positions -/
+def reorder (n : Nat) (idxs : List Nat) (ts : List TExpr) : List TExpr :=
+  (List.range n).map fun k => ((idxs.zip ts).find? (fun p => p.1 == k)).elim (TExpr.prim .unit) (·.2)
 
 mutual
 def go : IExpr → Option Ty → GEnv → Scopes → St → Res
@@ -671,12 +678,12 @@ def go : IExpr → Option Ty → GEnv → Scopes → St → Res
   | .constr i info args, exp, G, Γ, s =>
     -- `infer_constructor_expr`
     match info with
-    | none => let e := errExpr (s.mark.diag .ctorAmbiguous); finish i exp true e.1 Γ e.2
-    | some none => let e := errExpr (s.mark.diag .ctorNotFound); finish i exp true e.1 Γ e.2
+    | none => let e := errExpr (s.diag .ctorAmbiguous); finish i exp true e.1 Γ e.2
+    | some none => let e := errExpr (s.diag .ctorNotFound); finish i exp true e.1 Γ e.2
     | some (some (cty, arity)) =>
-      if arity ≠ args.length then let e := errExpr (s.mark.diag .ctorArity); finish i exp true e.1 Γ e.2
+      if arity ≠ args.length then let e := errExpr (s.diag .ctorArity); finish i exp true e.1 Γ e.2
       else
-        let it := s.mark.inst cty
+        let it := s.inst cty
         let ps := ctorParams it.1
         let ret := ctorRet it.1
         match (if ps.isEmpty then goL args G Γ it.2 else goZip args ps G Γ it.2) with
@@ -684,6 +691,18 @@ def go : IExpr → Option Ty → GEnv → Scopes → St → Res
         | some (ts, Γ1, s1) =>
           let c := if ts.isEmpty then Constraint.eq it.1 ret else Constraint.eq it.1 (.func (tysOf ts) ret)
           finish i exp true (.constr it.1 ts ret) Γ1 (s1.push c)
+  | .slit i info idxs args, exp, G, Γ, s =>
+    -- `infer_struct_literal_expr` (no unknown / duplicate / missing field)
+    match info with
+    | none => let e := errExpr (s.mark.diag .ctorNotFound); finish i exp true e.1 Γ e.2
+    | some (cty, nf) =>
+      let it := s.mark.inst cty
+      match goIdx args idxs (ctorParams it.1) G Γ it.2 with
+      | none => none
+      | some (ts, Γ1, s1) =>
+        let ordered := reorder nf idxs ts
+        let c := if ordered.isEmpty then Constraint.eq it.1 (ctorRet it.1) else Constraint.eq it.1 (.func (tysOf ordered) (ctorRet it.1))
+        finish i exp true (.constr it.1 ordered (ctorRet it.1)) Γ1 (s1.push c)
   | .array i items, exp, G, Γ, s =>
     -- `infer_array_expr`: the element variable first, every item inferred and equated with it
     let v := s.mark.fresh
@@ -766,6 +785,17 @@ def goHead : List IExpr → GEnv → Scopes → St → Option (List TExpr × Sco
 def goZipTail : List IExpr → List Ty → GEnv → Scopes → St → Option (List TExpr × Scopes × St)
   | _ :: es, _ :: xs, G, Γ, s => goZip es xs G Γ s
   | _, _, _, Γ, s => some ([], Γ, s)
+/-- the written fields of a struct literal: each checked against the parameter type of ITS position (inferred when the
+constructor type has no such parameter) -/
+def goIdx : List IExpr → List Nat → List Ty → GEnv → Scopes → St → Option (List TExpr × Scopes × St)
+  | e :: es, k :: ks, ps, G, Γ, s =>
+    match go e ps[k]? G Γ s with
+    | none => none
+    | some (t, Γ1, s1) =>
+      match goIdx es ks ps G Γ1 s1 with
+      | none => none
+      | some (ts, Γ2, s2) => some (t :: ts, Γ2, s2)
+  | _, _, _, _, Γ, s => some ([], Γ, s)
 /-- the items of an array literal: each inferred, then equated with the element variable -/
 def goArr : List IExpr → Ty → GEnv → Scopes → St → Option (List TExpr × Scopes × St)
   | [], _, _, Γ, s => some ([], Γ, s)
